@@ -20,6 +20,7 @@ type CheckDef struct {
 	Assumptions []string
 	ProbeEvery  int
 	Tweak       func(g *Gen, c *Config)
+	Replays     int      // C19: number of additional replays of every history on sibling branches
 	Scripts     []string // history index i (per profile) < len(Scripts) starts with scripted prefix Scripts[i]
 	QuickWatch  time.Duration
 	ThorWatch   time.Duration
@@ -257,6 +258,7 @@ func checkDefs() map[string]*CheckDef {
 	defs = append(defs, queueDefs()...)
 	defs = append(defs, timeDefs()...)
 	defs = append(defs, valueDefs()...)
+	defs = append(defs, lateDefs()...)
 	out := map[string]*CheckDef{}
 	for _, d := range defs {
 		out[d.Prop] = d
@@ -415,5 +417,36 @@ func drainSlashed(second bool) Script {
 			blk(6*time.Second, fee),
 		)
 		return st
+	}
+}
+
+func lateDefs() []*CheckDef {
+	return []*CheckDef{
+		{
+			Prop: "C18",
+			Runs: []ProfRun{{"queue", 40, 800}, {"core", 24, 500}, {"gov", 12, 250}},
+			Mons: func(r *Runner) []Monitor { return []Monitor{NewMonC18(r)} },
+			Required: []string{"C18.boundary/", "C18.continuation-equal", "red1", "unb1", "snapshotstrue", "slashed-entriestrue"},
+			Rule: "at every 5th block boundary (after end-of-block, before the next begin-block) of seeded histories: branch A = state as is, branch B = module store wiped and InitGenesis(JSON round trip of ExportGenesis(A)); the second export must be byte-identical; then the same 14-step continuation (user operations, blocks with evidence slashes of validators with pending entries, jumps over the unbonding period) runs on both in lock-step and after every step results, event digests, all account balances, supply, validator states, a fresh export and the unbonding/redelegation/delegation queries must be equal; a situation class = (pending unbondings, pending redelegations, merged records, weight snapshots, warm-up asset, partially slashed entries, rebalance flag set)",
+			Assumptions: commonAssumptions,
+		},
+		{
+			Prop: "C19",
+			Replays: 2,
+			Runs: []ProfRun{{"queue", 24, 500}, {"core", 24, 500}, {"gov", 8, 200}, {"extreme", 8, 150}},
+			Mons: func(r *Runner) []Monitor { return []Monitor{NewMonC19(r)} },
+			Required: []string{"C19.block/slashes1", "C19.block/slashes0/redels3", "matured1", "C19.replays-compared"},
+			Rule: "every seeded history is executed and then replayed twice more (quick) from its explicit step list on sibling branches of the same post-genesis state within one process; after every transaction the result and an event digest, after every block the begin/end-block results, event digests and a SHA-256 of the raw dump of the alliance, bank, staking, distribution, slashing and auth stores must be identical across replays (Go randomises map iteration per loop; addresses and scheduling differ between replays); thorough additionally runs histories concurrently in separate app instances under the race detector; the static clause of the property (source scan) is out of reach of runtime monitoring and not decided; a situation class = (slashes in block, pending redelegations, pending unbondings, matured entries)",
+			Assumptions: append(append([]string{}, commonAssumptions...), "the static 'for all current and future code paths' clause of C19 (AST scan) is not decided by this technique"),
+		},
+		{
+			Prop: "C20",
+			Runs: []ProfRun{{"queue", 48, 900}, {"core", 32, 600}, {"extreme", 8, 150}},
+			Mons: func(r *Runner) []Monitor { return []Monitor{NewMonC20(r)} },
+			ProbeEvery: 3,
+			Required: []string{"C20.unbonding-bucket/n3", "C20.unbonding-bucket/n2/vals2", "C20.unbonding-bucket/n2/vals1/denoms2", "C20.paginated/AllianceRedelegations", "C20.paginated/AlliancesDelegation", "C20.state/"},
+			Rule: "after every k-th step of seeded histories (several entries per bucket, several validators/denoms per delegator, partially slashed entries): every gRPC query of the module for ALL filter arguments drawn from the live state (plus absent ones), unpaginated and stitched from key-based and offset-based pages of size 1 and 2 and with count_total, is compared as a multiset with an independent enumeration of the primary records (raw store decoder) and with the reference entries; reported balance: Undelegate(balance) succeeds and Undelegate(balance+1) fails on branches; contract bindings (alliance, delegation, delegation_rewards) compared field by field with the gRPC answers; a situation class = bucket shapes, paginated query kinds, state sizes",
+			Assumptions: commonAssumptions,
+		},
 	}
 }
